@@ -288,6 +288,8 @@ def literal_cases(tier):
     yield {'text': 'p:First-Line', 'spec': [0, 0, 0, 2], 'struct': ['p', ':first-line']}
     yield {'tag': 'u-plus-a', 'a': 'u + a', 'b': 'u+a'}
     yield {'tag': 'u-plus-a', 'a': 'x .u + dd', 'b': 'x .u+dd'}
+    yield {'tag': 'comment-combinator', 'a': 'a /**/ > b', 'b': 'a > b'}
+    yield {'tag': 'comment-combinator', 'a': 'a /**/ b', 'b': 'a b'}
     yield {'tag': 'escape-roundtrip', 'a': 'a\\20 b', 'b': None}
     yield {'tag': 'escape-roundtrip', 'a': '.\\31 a', 'b': None}
 
@@ -329,6 +331,14 @@ def _check_literal_pair(case, ctx):
         sb, tb = _spec_of(case['b'])
         if sa != sb:
             raise Violation('literal:u-plus-a-is-a-unicode-range', f'{case["a"]!r}: {sa}; {case["b"]!r}: {sb} ({tb})')
+    elif case['tag'] == 'comment-combinator':
+        def combs(text):
+            s = Selector(text)
+            return [i.type for i in s.seq if i.type in ('descendant', 'child', 'adjacent-sibling', 'following-sibling')]
+        with lib('Selector'):
+            ca, cb = combs(case['a']), combs(case['b'])
+        if ca != cb:
+            raise Violation('literal:comment-next-to-combinator', f'{case["a"]!r} has combinators {ca}, {case["b"]!r} has {cb}')
     elif case['tag'] == 'escape-roundtrip':
         sb, tb = _spec_of(ta)
         if sa != sb:
